@@ -547,3 +547,13 @@ func init() {
 		return []TextEdit{p.editReplace(decl, "result := tableNames.Get().([]string)\ndefer tableNames.Put(result)"), p.editRange(fd.End(), fd.End(), "\n\nvar tableNames = sync.Pool{New: func() interface{} { return []string(nil) }}\n")}, nil
 	}})
 }
+
+func init() {
+	ctl("failed initial contents leave the deferral armed", "DEFER-DISARM", "monitor|no return leaves", "client", "ovsdbClient", "monitor", kStmt, "if rerr := db.applyDeferredUpdates(cookie); rerr != nil", 0, del)
+}
+
+func init() {
+	ctl("traffic channel closed on disconnect", "CH-CLOSE", "handleDisconnectNotification|close of", "client", "ovsdbClient", "handleDisconnectNotification", kStmt, "close(o.stopCh)", 0, func(orig string) string {
+		return orig + "\nif o.trafficSeen != nil {\nclose(o.trafficSeen)\n}"
+	})
+}
